@@ -329,8 +329,12 @@ def generate(tier, seed):
         f = random_formula(rr, 2, False)
         if f["kind"] not in rs.LOGIC:
             continue
-        if tier != "quick" and i % 3 == 0:
+        if i % 3 == 0:
             f = {"kind": rr.choice(["Or", "And"]), "args": [f, copy.deepcopy(rr.choice(aux))]}
+        elif i % 3 == 1 and i % 2 == 0:
+            # negative polarity over an operand with auxiliary unknowns
+            f = rr.choice([{"kind": "Not", "arg": copy.deepcopy(rr.choice(aux))},
+                           {"kind": "Xor", "a": copy.deepcopy(rr.choice(aux)), "b": copy.deepcopy(rr.choice(leaf_pool()))}])
         s2 = dict(base_spec(False), constraints=[with_ids(f, [0])])
         cases.append({"cid": f"grid-{i}", "family": "refsem-grid", "kind": "grid", "spec": s2, "wide": False,
                       "limit": 30 if tier == "quick" else 200, "rng": seed + i})
